@@ -42,6 +42,10 @@ type Context struct {
 	// The document used to resolve positional operators in top level operator
 	// invocation paths. If absent, the processed document is used.
 	TopLevelResolveDoc bsonkit.Doc
+
+	// An optional function that is called with every resolved path of a top
+	// level operator invocation before the operator is called.
+	TopLevelPathCheck func(path string) error
 }
 
 // Process will process a document with a query using the MongoDB operator
@@ -101,6 +105,14 @@ func ProcessExpression(ctx Context, doc bsonkit.Doc, prefix string, pair bson.E,
 		// call operator for each pair
 		for _, cond := range update {
 			err := Resolve(cond.Key, ctx.TopLevelQuery, source, ctx.TopLevelArrayFilters, func(path string) error {
+				// check path if requested
+				if ctx.TopLevelPathCheck != nil {
+					err := ctx.TopLevelPathCheck(path)
+					if err != nil {
+						return err
+					}
+				}
+
 				return operator(ctx, doc, pair.Key, path, cond.Value)
 			})
 			if err != nil {
